@@ -34,8 +34,15 @@ def _run(case):
     box = {}
 
     def make():
-        box['sch'] = S(tt, 'sch') if case['cyclical'] is None else S(tt, 'sch', is_cyclical=case['cyclical'])
-    if t0:
+        mine = [tuple(x) for x in tt]       # the caller's own list ...
+        box['sch'] = S(mine, 'sch') if case['cyclical'] is None else S(mine, 'sch', is_cyclical=case['cyclical'])
+        mine.reverse()                      # ... which it goes on to use for something else
+        mine.append((7, 'edited'))
+        del mine[0]
+    between = bool(case.get('between')) and len(case['T']) > 1
+    if between:
+        t0 = case['T'][0]       # created after the first simulate() has returned, before the second starts
+    elif t0:
         # the scheduler is created while the simulation is running: its timetable starts then
         env.schedule_event(t0, -4, make, 13)
     else:
@@ -78,8 +85,10 @@ def _run(case):
     while 0.25 * k <= T:
         env.schedule_event(0.25 * k, -5, lambda: samples.append((env.now, sch.current_state if 'sch' in box else None)), 1.5)
         k += 1
-    for h in case['T']:
+    for i, h in enumerate(case['T']):
         s.simulate(h, print_summary=False)
+        if between and i == 0:
+            make()
 
     # ---- reference timetable: state i begins at the sum of the durations before it
     bounds = []
@@ -101,6 +110,8 @@ def _run(case):
                 st = sv
         return st
     for (x, st) in samples:
+        if between and x == t0:
+            continue        # sampled at the end of the first run, just before the scheduler was created
         if st != state_at(x):
             raise Violation('C18.state', f'state at {x} is {st!r}, the timetable {tt} (cyclical={cyc}) prescribes '
                             f'{state_at(x)!r}')
